@@ -101,6 +101,7 @@ func init() {
 			E5Position(c, r)
 			E5ObjOffsets(c, r)
 			E5Reserved(c, r)
+			E5FreshRef(c, r)
 			E5StreamLength(c, r)
 			E5Metadata(c, r)
 			E5FontMaps(c, r)
@@ -152,6 +153,7 @@ func init() {
 		Assumptions: []string{"standard-library functions not in the mutator table are pure (listed in coverage.external_assumed)", "results of calls through function-typed parameters are fresh objects", "third-party Go dependencies are analysed from source, cgo is not"},
 		Run: func(c *core.Ctx, r *core.Report) {
 			E1Renderers(c, r)
+			E12Units(c, r)
 			E6StyleCoverage(c, r, map[string]bool{"Rasterizer": true})
 			E6ScannerSites(c, r)
 			E6WindingMode(c, r)
@@ -207,9 +209,10 @@ func init() {
 func init() {
 	register("C18", &Property{
 		Title: "Embedded fonts and glyph paths reproduce the laid-out text",
-		Explanation: "Decides two structural clauses: (1) 'the glyph subsetter assigns each used glyph one stable code with .notdef at zero' — the constructor and Get/List have exactly the hit/miss/append shape; (2) fonts used for vertical text are kept in their own map and written with the matching vertical flag (Identity-V vs Identity-H), every font map that reserves an object is written in Close, and every Tf operand names a font registered in the page's resources (E5 font-map and resource rules). NOT decided: outlines, advances, the W array, ToUnicode contents, glyph placement in toPath.",
+		Explanation: "Decides three structural clauses: (1) 'the glyph subsetter assigns each used glyph one stable code with .notdef at zero' — the constructor and Get/List have exactly the hit/miss/append shape, and the PDF writer creates a font's subsetter only when the font has none (a second writing direction must not reset the codes already written); (2) fonts used for vertical text are kept in their own map and written with the matching vertical flag (Identity-V vs Identity-H), every font map that reserves an object is written in Close, and every Tf operand names a font registered in the page's resources (E5 font-map and resource rules). NOT decided: outlines, advances, the W array, ToUnicode contents, glyph placement in toPath.",
 		Run: func(c *core.Ctx, r *core.Report) {
 			E11Subsetter(c, r)
+			E5SubsetOnce(c, r)
 			E5FontMaps(c, r)
 			E5Resources(c, r)
 		},
@@ -227,9 +230,10 @@ func init() {
 func init() {
 	register("C16", &Property{
 		Title: "Text layout places every character once, inside the box, on ordered lines",
-		Explanation: "Decides one clause only, the structural part of 'lines are stacked monotonically by their line heights … Text.Bounds/Heights enclose all spans': a line's top/ascent/descent/bottom are pure component-wise math.Max folds over its spans (each accumulator folded with the same-named component of FontFace.heights(), inline objects' ascent/descent feeding the right pair), and Text.Heights combines the first line's ascent with the last line's descent. NOT decided: everything else — that every character appears exactly once and in order, glyph/byte index bookkeeping, glue stretching, alignment, bidi reordering, Overflows, which are arithmetic over runtime arrays with no structural clause.",
+		Explanation: "Decides two structural clauses. (1) the structural part of 'lines are stacked monotonically by their line heights … Text.Bounds/Heights enclose all spans': a line's top/ascent/descent/bottom are pure component-wise math.Max folds over its spans (each accumulator folded with the same-named component of FontFace.heights(), inline objects' ascent/descent feeding the right pair), and Text.Heights combines the first line's ascent with the last line's descent. (2) a necessary condition of 'right-aligned lines end at the width, centred lines are centred, no line extends beyond the box unless Overflows is reported': the width the line breaker records for a feasible break includes the width of the penalty (the hyphen shown at the break), by the same guarded addition the fitting computation uses. NOT decided: everything else — that every character appears exactly once and in order, glyph/byte index bookkeeping, glue stretching, alignment, bidi reordering, Overflows, which are arithmetic over runtime arrays with no structural clause.",
 		Run: func(c *core.Ctx, r *core.Report) {
 			E3LineHeights(c, r)
+			E11BreakWidth(c, r)
 		},
 	})
 }
